@@ -492,7 +492,8 @@ def check_final(prog: Program, res: Result) -> None:
                         res.ob("C19-delete", got in DIRS["torch_dataset_np_chunks"], m.qualname, f"{norm(c.func)}(np_chunks_path={got})",
                                f"`{short(c, 40)}` writes its .npz chunks to `{got}`, which the finally block of train() does not remove (it removes "
                                f"{sorted(DIRS['torch_dataset_np_chunks'])}): chunk files survive although their deletion was requested", f"{m.module.relpath}:{c.lineno}")
-    res.ob("C19-delete", n_paths >= 8, ci.qualname, "dataset constructions with a chunk directory found", f"only {n_paths} dataset constructions pass np_chunks_path", "")
+    # vacuity guard: at least a train and a validation construction (8 on the pinned tree: one pair per model type)
+    res.ob("C19-delete", n_paths >= 2, ci.qualname, "dataset constructions with a chunk directory found", f"only {n_paths} dataset constructions pass np_chunks_path", "")
     res.floor("C19-delete", 3)
 
 
